@@ -76,11 +76,13 @@ def validators_fit(rep):
         tree = ast.parse(fh.read())
     table = None
     for st in tree.body:
-        if isinstance(st, ast.Assign) and len(st.targets) == 1 and isinstance(st.targets[0], ast.Name) and st.targets[0].id == '_ai_validators':
+        # the table of extra validators, whatever it is called: a module-level dict literal from identifiers to 'stdnum....' module names
+        if isinstance(st, ast.Assign) and len(st.targets) == 1 and isinstance(st.targets[0], ast.Name) and isinstance(st.value, ast.Dict) and st.value.keys \
+                and all(isinstance(v_, ast.Constant) and isinstance(v_.value, str) and v_.value.startswith('stdnum.') for v_ in st.value.values):
             try:
                 table = ast.literal_eval(st.value)
             except (ValueError, SyntaxError):
-                raise AnalysisError('%s: _ai_validators is not a literal table' % FILE)
+                raise AnalysisError('%s: the validator table is not a literal' % FILE)
             line = st.lineno
     if table is None:
         raise AnalysisError('%s: _ai_validators vanished' % FILE)
@@ -296,11 +298,17 @@ def analyse(rep):
     last = [c for c in comps if src(c.generators[0].iter).endswith('[-1:]')]
     if len(nonlast) != 1 or len(last) != 1:
         raise AnalysisError('%s:%d encode(): the two comprehensions over variable_values[:-1] / [-1:] were not found' % (FILE, encf.lineno))
+    # the registry object: the module-level name bound to numdb.get('gs1_ai')
+    aidb = next((st.targets[0].id for st in tree.body if isinstance(st, ast.Assign) and len(st.targets) == 1 and isinstance(st.targets[0], ast.Name)
+                 and src(st.value).replace('"', "'") == "numdb.get('gs1_ai')"), None)
+    if aidb is None:
+        raise AnalysisError("%s: no module-level name is bound to numdb.get('gs1_ai')" % FILE)
+
     def reg_var(fn):
         """the local name that holds the registry properties of the current identifier: `ai, <name> = _gs1_aidb.info(...)[0]`"""
         for n in ast.walk(fn):
             if isinstance(n, ast.Assign) and len(n.targets) == 1 and isinstance(n.targets[0], ast.Tuple) and len(n.targets[0].elts) == 2 \
-                    and all(isinstance(e, ast.Name) for e in n.targets[0].elts) and '_gs1_aidb.info(' in src(n.value):
+                    and all(isinstance(e, ast.Name) for e in n.targets[0].elts) and ('%s.info(' % aidb) in src(n.value):
                 return n.targets[0].elts[1].id
         raise AnalysisError('%s:%d %s(): no `ai, info = _gs1_aidb.info(...)[0]`' % (FILE, fn.lineno, fn.name))
     inf = funcs['info']
